@@ -354,6 +354,12 @@ PROPS["C15"] = {
           "count field, packet types, length words, second sub-packet starts right after the first", bound="RR with one block followed by a PLI", module=RM, timeout=600),
         K("compound round trip RR + PLI through the real walker", "c15_rtcp_compound_roundtrip_rr_pli", "quick", "bounded", ["marshal_rtcp_packets", "parse_rtcp_packets", "parse_receiver_report", "parse_rtcp_psfb"],
           "parse_rtcp_packets(marshal_rtcp_packets([RR, PLI])) == [RR, PLI] for every field value", bound="RR with one block followed by a PLI; the framing octets marshal emitted are asserted, then re-written as literals", module=RM, timeout=900),
+        K("RR count field == blocks serialised (31 blocks)", "c15_rr_count_field_31_blocks", "quick", "bounded", ["marshal_rtcp_packets", "build_receiver_report_body", "write_rtcp_packet"],
+          "whatever marshal emits, the 5-bit RC field equals the number of report blocks in the body and the length field matches", bound="31 report blocks (the largest count RC can announce)", module=RM, timeout=900),
+        K("RR count field == blocks serialised (32 blocks)", "c15_rr_count_field_32_blocks", "quick", "bounded", ["marshal_rtcp_packets", "build_receiver_report_body", "write_rtcp_packet"],
+          "a report with more blocks than RC can announce is rejected (or split) — never emitted with a wrapped count", bound="32 report blocks", module=RM, timeout=900),
+        K("BYE count field == sources serialised (32 sources)", "c15_bye_count_field_32_sources", "thorough", "bounded", ["marshal_rtcp_packets", "build_goodbye_body"],
+          "same law for the 5-bit SC field", bound="32 sources", module=RM, timeout=900),
         K("canary: report block inverse without clamping", "canary_report_block_unclamped", "quick", "canary", ["build_report_block"], "false claim, must FAIL", expect="fail", module=RM),
     ],
 }
